@@ -1,6 +1,7 @@
 """C03 - string, escape, environment and comment lexing decode as specified (DESIGN 4/C03)."""
 from props.common import run_with
 from props.lexcommon import lex_step_obs
+from props.inclcommon import pop_obs
 
 NEEDS_LEXER = True
 FUNCS = ["every rule action of lexer.l (INITIAL, comment, dq_str, sq_str, <<EOF>>)", "qputc", "qput", "qbeg", "qend", "qstr", "trim_whitespace"]
@@ -11,6 +12,8 @@ def build_obs(tier, tables):
     # longer window (room for ${NAME:-default}, \\x41, 4-digit escapes, longer words) on one scratch variant
     obs += lex_step_obs(tables, ["CHK_C03", "CHK_C15"], tier, "c03", windows=[7] if tier == "quick" else [7, 9], checks="none",
                         variants=("fill2", "fill5"), envw=2 if tier == "quick" else 3)
+    # an unterminated single-quoted string is rejected also when it ends an included file
+    obs += [o for o in pop_obs("c03") if "-sc3-" in o.key]
     return obs
 
 
